@@ -1,0 +1,90 @@
+//go:build verif
+
+package errors
+
+// Contracts for the deductive verifier in /verif (comment-only file; see /verif/DESIGN.md).
+// The top-level API forwards to the sub-packages; these contracts pin down the forwarding
+// (nil discipline, C10) and the frame level each stack / domain capture denotes (C16).
+
+//@ func New
+//@   props C10 C16
+//@   ensures result != nil
+//@   ensures[C16] $cap == lvl - 1
+//@ func NewWithDepth
+//@   props C10 C16
+//@   ensures result != nil
+//@   ensures[C16] $cap == lvl - 1 - depth
+//@ func Newf
+//@   props C10 C16
+//@   ensures result != nil
+//@   ensures[C16] $cap == lvl - 1
+//@ func NewWithDepthf
+//@   props C10 C16
+//@   ensures result != nil
+//@   ensures[C16] $cap == lvl - 1 - depth
+//@ func Errorf
+//@   props C10 C16
+//@   ensures result != nil
+//@   ensures[C16] $cap == lvl - 1
+//@ func Wrap
+//@   props C10 C16
+//@   ensures err == nil ==> result == nil
+//@   ensures err != nil ==> result != nil
+//@   ensures[C16] err != nil ==> $cap == lvl - 1
+//@ func WrapWithDepth
+//@   props C10 C16
+//@   ensures err == nil ==> result == nil
+//@   ensures err != nil ==> result != nil
+//@   ensures[C16] err != nil ==> $cap == lvl - 1 - depth
+//@ func Wrapf
+//@   props C10 C16
+//@   ensures err == nil ==> result == nil
+//@   ensures err != nil ==> result != nil
+//@   ensures[C16] err != nil ==> $cap == lvl - 1
+//@ func WrapWithDepthf
+//@   props C10 C16
+//@   ensures err == nil ==> result == nil
+//@   ensures err != nil ==> result != nil
+//@   ensures[C16] err != nil ==> $cap == lvl - 1 - depth
+//@ func WithStack
+//@   props C10 C16
+//@   ensures err == nil ==> result == nil
+//@   ensures[C16] err != nil ==> $cap == lvl - 1
+//@ func WithStackDepth
+//@   props C10 C16
+//@   ensures err == nil ==> result == nil
+//@   ensures[C16] err != nil ==> $cap == lvl - 1 - depth
+//@ func AssertionFailedf
+//@   props C10 C16
+//@   ensures result != nil
+//@   ensures[C16] $cap == lvl - 1
+//@ func AssertionFailedWithDepthf
+//@   props C10 C16
+//@   ensures result != nil
+//@   ensures[C16] $cap == lvl - 1 - depth
+//@ func HandleAsAssertionFailure
+//@   props C10 C16
+//@   ensures origErr == nil ==> result == nil
+//@   ensures[C16] origErr != nil ==> $cap == lvl - 1
+//@ func HandleAsAssertionFailureDepth
+//@   props C10 C16
+//@   ensures origErr == nil ==> result == nil
+//@   ensures[C16] origErr != nil ==> $cap == lvl - 1 - depth
+//@ func NewAssertionErrorWithWrappedErrf
+//@   props C10 C16
+//@   ensures origErr == nil ==> result == nil
+//@   ensures[C16] origErr != nil ==> $cap == lvl - 1
+//@ func Join
+//@   props C10 C13 C16
+//@   ensures countNonNil(errs, len(errs)) == 0 ==> result == nil
+//@   ensures[C16] countNonNil(errs, len(errs)) > 0 ==> $cap == lvl - 1
+//@ func JoinWithDepth
+//@   props C10 C13 C16
+//@   ensures countNonNil(errs, len(errs)) == 0 ==> result == nil
+//@   ensures[C16] countNonNil(errs, len(errs)) > 0 ==> $cap == lvl - 1 - depth
+//@ func PackageDomain
+//@   props C16
+//@   ensures $dom == lvl - 1
+//@ func PackageDomainAtDepth
+//@   props C16
+//@   ensures $dom == lvl - 1 - depth
